@@ -565,6 +565,32 @@ func (e *Env) call(ex *ECall) Value {
 				e.errf("%v", err)
 			}
 			return x.mk(x.TM.Unbox(x.TM.Sort(t), app("ival", v.Term)), t)
+		case "lent":
+			sl := e.eval(ex.Args[0])
+			k := e.eval(ex.Args[1])
+			slt, ok := types.Unalias(sl.Typ).Underlying().(*types.Slice)
+			if !ok {
+				e.errf("lent(slice, k)")
+			}
+			return boolV(Select(x.lentArr(e.st, x.TM.ElemArray(x.TM.Key(slt.Elem())), app("sbase", sl.Term)), k.Term))
+		case "allocated":
+			v := e.eval(ex.Args[0])
+			t := x.asTerm(v)
+			if v.Sort == SSlice {
+				t = app("sbase", v.Term)
+			}
+			return boolV(app("<", t, e.st.AllocTerm()))
+		case "lentany":
+			return boolV(x.lentAny(e.st))
+		case "panicked":
+			return boolV(x.panicked(e.st))
+		case "chanlen":
+			ch := e.eval(ex.Args[0])
+			n, ok := x.chanGhost(e.st, ch.Term, "len")
+			if !ok {
+				e.errf("chanlen of unknown channel")
+			}
+			return intV(n)
 		case "zero":
 			tl, ok := ex.Args[0].(*EType)
 			if !ok {
